@@ -654,3 +654,17 @@ Theorem C01_whole_answer_record :
   spec_result matches supported url st mr fc L T.
 Proof. exact batch_engine_check. Qed.
 Print Assumptions C01_whole_answer_record.
+
+(* ------------------------------------------------------------------ translator tie: the precedence
+   logic of Blocker::check_parameterised as extracted on this run (Generated.CheckGen + the tag
+   arguments of BlockerGen.tag_sites), interpreted over the model's blocker, IS blocker_check_p *)
+From Adb Require Struct_Check_Proofs.
+Theorem C01_src_check_is_model : forall (matches : rule -> bool) (pr : list N) (mr fc : bool) (b : blocker),
+  Struct_Check_Proofs.interp_check matches pr mr fc b = blocker_check_p matches pr mr fc b.
+Proof. exact Struct_Check_Proofs.interp_check_is_model. Qed.
+Print Assumptions C01_src_check_is_model.
+
+Theorem C01_src_unsupported_returns_default :
+  CheckGen.returns_default_when = CheckGen.QNot (CheckGen.QAtom CheckGen.Q_supported).
+Proof. exact Struct_Check_Proofs.unsupported_returns_default. Qed.
+Print Assumptions C01_src_unsupported_returns_default.
